@@ -465,6 +465,36 @@ func TestEnumerate(t *testing.T) {
 	}
 }
 
+// TestPipelined: many requests outstanding at once (answered later, in order and reversed).
+func TestPipelined(t *testing.T) {
+	rec := ev.New(prop, "pipelined", "n in {1,8,63,64,65,200,1000} requests written back to back with every answer deferred, then answered in order / in reverse / with the first half free-running; all non-trivial")
+	rec.Exhaustive()
+	for _, n := range []int{1, 8, 63, 64, 65, 200, 1000} {
+		for variant := 0; variant < 3; variant++ {
+			var c Case
+			for i := 0; i < n; i++ {
+				mode := "defer"
+				if variant == 2 && i < n/2 {
+					mode = "free"
+				}
+				kind := "createStream"
+				if i == 0 {
+					kind = "connect"
+				}
+				c.Reqs = append(c.Reqs, Req{Kind: kind, Mode: mode, Tid: float64(i + 1)})
+			}
+			if variant == 1 {
+				c.Pick = []int{n - 1, n - 2, 7, 0}
+			}
+			if err := check(rec, c); err != nil {
+				normalize(&c)
+				p := ev.Fail(prop, "pipelined", c, err)
+				t.Fatalf("%v (replay %s)", err, p)
+			}
+		}
+	}
+}
+
 func replayers() map[string]ev.Replayer {
 	f := func(raw json.RawMessage) error {
 		var c Case
@@ -475,7 +505,7 @@ func replayers() map[string]ev.Replayer {
 		_, _, e := runCase(c)
 		return e
 	}
-	return map[string]ev.Replayer{"schedules": f, "enumerate": f, "process": f}
+	return map[string]ev.Replayer{"schedules": f, "enumerate": f, "process": f, "pipelined": f}
 }
 
 func TestRegress(t *testing.T) { ev.Regress(t, prop, replayers()) }
